@@ -66,6 +66,13 @@ REG = {
             "reachable generator must differ between two worker seeds, no state may occur in both workers, equal seeds reproduce; a "
             "second facet runs real 2-worker DataLoaders and compares per-generator digests taken inside the workers",
             "DESIGN.md §3 C09", TRUST + "; deepcopy models fork/pickle (validated by the real-worker facet)"),
+    "C15": ("exploration", "Hypothesis-generated scalable transforms x factor sequences: algebraic laws over observed parameter ranges (attribute walk + spy generator); simulated and real workers for the scheduled transform",
+            "16 leaf facets + KDComposeTransform nestings: R(1)==constructed, no compounding (sequence == fresh scaled once), "
+            "monotone between R(0) and R(g), every requested range collapsed at 0 and identity where one exists; ranges observed "
+            "both as reachable numeric attributes and as the (lo,hi)/(loc,scale) arguments requested from an injected spy "
+            "generator; scheduled transform: W simulated round-robin workers over all three budget kinds and real DataLoaders - "
+            "every sample of global batch b carries schedule(b,T) in ctx and in the wrapped transform",
+            "DESIGN.md §3 C15", TRUST + "; full batches only (C15's stated domain)"),
     "C16": ("exploration", "Hypothesis-generated label layouts and wrapper arguments vs. coherence/range/purity/reproducibility predicates",
             "10 facets (one per label-rewriting wrapper): bulk accessor vs per-sample accessor, labels within getshape_class or -1, "
             "x/len/root labels untouched (roots returning a new list, their internal list, ndarray, tensor), equal labels under two "
